@@ -119,6 +119,21 @@ func runAdapt(c *sup.Child, b sup.Batch) {
 				}
 			}
 			m[names[target]] = sb.String()
+			if idx%4 == 1 && n >= 2 {
+				// two values share the work: one has a line that starts like the plain delimiter and goes
+				// on with a non-ASCII byte (the plain delimiter is out), ANOTHER variable has such lines
+				// for the first letters a prefixed delimiter would try first – the delimiter has to suit
+				// every value of the script, not only the one that ruled the plain one out
+				m[names[target]] = "E\xc3\xa9 one\nEO\xffx\nEOF\x88"
+				var ob strings.Builder
+				for _, ch := range "ABCabcZz" {
+					if ch == 'A' || rng.Intn(2) == 0 {
+						ob.WriteString(string(ch) + []string{"\xc3\xa9 two", "\xff", "\x80x", "EOF\xe2\x82\xac"}[rng.Intn(4)] + "\n")
+					}
+				}
+				m[names[(target+1)%n]] = ob.String() + "end"
+				r.AddObs("adapt_maps_with_prefix_lines_spread_over_two_values", 1)
+			}
 			budget := maxViol
 			checkMap(r, variant, m, useSetAll, &budget)
 			r.AddObs("adapt_runs", 1)
